@@ -132,6 +132,7 @@ def sparse_index_replay(ob, cache):
         return False, {'error': r.err}
     hits = r.result.get('index', [])
     return bool(hits), {
+        'rerun': {'battery': 'sparse_index', 'oracles': ['index']},
         'battery': 'engine/replay/sparse_index_battery.py: sparse indexing '
         'against the dense copy on an overlay build of the current tree',
         'failing_cases': hits[:8],
